@@ -65,11 +65,18 @@ def main(args):
 
         archive_version_index = VersionIndex.create_or_load(archive_version_index_path)
         try:
-            archive_version_index.copy_entries_to(
+            num_entries = archive_version_index.copy_entries_to(
                 dest=ctx.version_index, tasks=None, latest_only=False
             )
         except sqlite3.IntegrityError as ex:
             raise DuplicateTaskOutput(output_dir=str(ctx.output_path)) from ex
+        if num_entries <= 0:
+            # `cond archive` never creates an archive without task outputs. An
+            # index without entries (e.g., a file that lost its contents, which
+            # SQLite opens as an empty database) means the archive is damaged.
+            raise ArchiveFileInvalid().add_extra_context(
+                "The archive version index does not list any task outputs."
+            )
 
         # Copy over all archived task outputs
         for task_id, version in archive_version_index.get_all_versions():
